@@ -248,14 +248,23 @@ class Runner:
         if self.case.get("logv") is not None:
             rrb_mod.math = _MathShim(real_math, float(F(self.case["logv"])))
         try:
+            keys_arg = self._keys_arg() if self.kind in ("dseq", "drrb") or self.kind not in ("seq", "rrb") else None
             if self.kind == "seq":
                 b = seq_mod.SequentialBuffer(cap)
             elif self.kind == "dseq":
-                b = seq_mod.DictSequentialBuffer(self._keys_arg(), cap)
+                b = seq_mod.DictSequentialBuffer(keys_arg, cap)
             elif self.kind == "rrb":
                 b = rrb_mod.RandomReplacementBuffer(cap, **kw)
             else:
-                b = rrb_mod.DictRandomReplacementBuffer(self._keys_arg(), cap, **kw)
+                b = rrb_mod.DictRandomReplacementBuffer(keys_arg, cap, **kw)
+            # the key collection is the caller's own object: what the caller does with it afterwards (one
+            # set extended and reused for the next buffer) must not change the keys of this buffer
+            if isinstance(keys_arg, set):
+                keys_arg.add("__later__")
+                keys_arg.discard(next(iter(sorted(k for k in keys_arg if k != "__later__")), None))
+            elif isinstance(keys_arg, list):
+                keys_arg.append("__later__")
+                del keys_arg[:1]
             return b, f"ok q={b.max_queue_size}"
         except Exception as e:  # the reply names whatever was raised
             return None, "err " + type(e).__name__
